@@ -1623,12 +1623,24 @@ func (sc *serverConn) processData(f *DataFrame) error {
 
 	// Sender sending more than they'd declared?
 	if st.declBodyBytes != -1 && st.bodyBytes+int64(len(data)) > st.declBodyBytes {
+		// The frame still counts against the connection window (RFC 7540
+		// Section 6.9); check it like any other DATA frame.
+		if sc.inflow.available() < int32(f.Length) {
+			return StreamError{id, ErrCodeFlowControl, "connection-level flow control window error"}
+		}
+
 		err := fmt.Errorf("sender tried to send more than declared Content-Length of %d bytes", st.declBodyBytes)
 		st.body.CloseWithError(err)
 		// RFC 7540, sec 8.1.2.6: A request or response is also malformed if the
 		// value of a content-length header field does not equal the sum of the
 		// DATA frame payload lengths that form the body.
-		return StreamError{id, ErrCodeProtocol, err.Error()}
+		sc.resetStream(StreamError{id, ErrCodeProtocol, err.Error()})
+
+		// We are not going to consume the frame: return its conn-level
+		// flow control right away (after the RST_STREAM).
+		sc.inflow.take(int32(f.Length))
+		sc.sendWindowUpdate(nil, int(f.Length))
+		return nil
 	}
 	if f.Length > 0 {
 		// Check whether the client has flow control quota.
